@@ -24,86 +24,88 @@ PAIRS = [
     ("eqeqeq", "E", "a == b", "a === b"),
     ("no-compare-neg-zero", "E", "x === -0", "x === 0"),
     ("no-cond-assign", "S", "if (x = 0) { }", "if (x === 0) { }"),
-    ("no-sparse-arrays", "E", "[1,,2]", "[1,2]"),
+    ("no-sparse-arrays", "S", "const sparseArray = [1,,3];", "const sparseArray1 = [1,null,3];"),
     ("no-self-compare", "E", "x === x", "x === y"),
-    ("no-unsafe-negation", "E", "!a in b", "!(a in b)"),
-    ("use-isnan", "E", "x == NaN", "isNaN(x)"),
+    ("no-unsafe-negation", "E", "!key in object", "!(key in object)"),
+    ("use-isnan", "E", "42 === NaN", "isNaN(42)"),
     ("no-extra-boolean-cast", "E", "!!!foo", "!!foo"),     # the twin `!!foo` is silent on its own and reveals the boolean contexts (if/while/?:/!) in which the rule is context dependent by specification
     ("valid-typeof", "E", 'typeof foo === "strnig"', 'typeof foo === "string"'),
-    ("no-invalid-regexp", "E", 'new RegExp("[")', 'new RegExp("x")'),
-    ("no-invalid-regexp", "E", 'RegExp(".", "z")', 'RegExp(".", "g")'),
-    ("no-invalid-regexp", "E", r"/(?<a>.)\k<b>/u", r"/(?<a>.)\k<a>/u"),
+    ("no-invalid-regexp", "E", "new RegExp(')')", "new RegExp('.')"),
+    ("no-invalid-regexp", "E", "RegExp('[')", "RegExp('.')"),
+    ("no-invalid-regexp", "E", "RegExp('.', 'z')", "RegExp('.', 'g')"),
+    ("no-invalid-regexp", "E", r"/(?<a>a)\k</", r"/(?<a>a)\k<a>/"),
     ("no-empty-character-class", "E", "/^abc[]/", "/^abc[a]/"),
     ("no-control-regex", "E", r"/\x1f/", r"/\x20/"),
     ("no-regex-spaces", "E", "/foo  bar/", "/foo {2}bar/"),
-    ("no-dupe-keys", "E", "{ a: 1, a: 2 }", "{ a: 1, b: 2 }"),
+    ("no-dupe-keys", "S", 'var x = { "z": 1, z: 2 };', "var x = { '': 1, bar: 2 };"),
     ("no-array-constructor", "E", "new Array(0, 1, 2)", "new Array(500)"),
     ("no-new-symbol", "E", "new Symbol()", "Symbol()"),
     ("no-obj-calls", "E", "Math()", "Math.abs(1)"),
-    ("no-prototype-builtins", "E", 'foo.hasOwnProperty("bar")', 'Object.prototype.hasOwnProperty.call(foo, "bar")'),
+    ("no-prototype-builtins", "S", "foo.hasOwnProperty('bar');", "Object.prototype.hasOwnProperty.call(foo, 'bar');"),
     ("no-async-promise-executor", "E", "new Promise(async (resolve, reject) => {})", "new Promise((resolve, reject) => {})"),
-    ("no-eval", "E", 'eval("123")', 'foo("123")'),
+    ("no-eval", "S", "eval('123');", "foo.eval('bar');"),
+    ("no-explicit-any", "S", "const a: any = {};", "const a: unknown = {};"),
     ("no-explicit-any", "E", "foo as any", "foo as unknown"),
-    ("no-non-null-assertion", "E", "foo!.bar", "foo.bar"),
-    ("no-extra-non-null-assertion", "E", "foo!!.bar", "foo!.bar"),
+    ("no-non-null-assertion", "S", "x!.y;", "x.y;"),
+    ("no-extra-non-null-assertion", "S", "function foo(bar: undefined | string) { return bar!!; }", "function foo(bar: undefined | string) { return bar!; }"),
     ("no-non-null-asserted-optional-chain", "E", "foo?.bar!", "foo?.bar"),
     ("no-this-alias", "S", "const self = this;", "const self = that;"),
-    ("no-throw-literal", "S", 'throw "error";', 'throw new Error("error");'),
+    ("no-throw-literal", "S", "throw 'kumiko';", "throw e;"),
     ("no-delete-var", "E", "delete someVar", "delete someVar.prop"),
     ("no-debugger", "S", "debugger;", ";"),
-    ("no-var", "S", "var foo1 = 0;", "let foo1 = 0;"),
-    ("no-with", "S", "with (someVar) { bar }", "{ bar }", "js"),
+    ("no-var", "S", "var foo = 0;", "let foo = 0;"),
+    ("no-with", "S", "with (someVar) { console.log('asdf'); }", "{ console.log('asdf'); }", "js"),
     ("no-empty", "S", "if (foo) { }", "if (foo) { bar }"),
     ("no-empty-pattern", "S", "const {} = foo;", "const {a1} = foo;"),
-    ("no-empty-pattern", "E", "function ({}) {}", "function ({a1}) {}"),
+    ("no-empty-pattern", "S", "function foo({}) {}", "function foo({a}) {}"),
     ("no-case-declarations", "S", "switch (foo) { case 1: let x1 = 1; break; }", "switch (foo) { case 1: { let x1 = 1; break; } }"),
-    ("no-duplicate-case", "S", "switch (a) { case 1: break; case 1: break; }", "switch (a) { case 1: break; case 2: break; }"),
+    ("no-duplicate-case", "S", "switch (a) { case a: case a: }", "switch(a) { case toString: break; }"),
     ("no-dupe-else-if", "S", "if (a) {} else if (a) {}", "if (a) {} else if (b) {}"),
     ("no-dupe-args", "E", "function (a, b, a) {}", "function (a, b, c) {}"),
     ("no-dupe-class-members", "E", "class { foo() {} foo() {} }", "class { foo() {} bar() {} }"),
-    ("no-constant-condition", "S", "if (true) { foo }", "if (bar) { foo }"),
+    ("no-constant-condition", "S", "if(true);", "if(a);"),
     ("no-constant-condition", "E", "true ? 1 : 2", "bar ? 1 : 2"),
     ("no-self-assign", "E", "a = a", "a = b"),
     ("no-unsafe-finally", "E", "function () { try { return 1; } finally { return 3; } }", "function () { try { return 1; } finally { foo; } }"),
-    ("no-setter-return", "E", "{ set a(value) { return value; } }", "{ set a(value) { value; } }"),
+    ("no-setter-return", "E", "{ set a(val) { return 1; } }", "{ set foo(val) { return; } }"),
     ("getter-return", "E", "{ get a() {} }", "{ get a() { return 1; } }"),
-    ("getter-return", "E", "class { get a() {} }", "class { get a() { return 1; } }"),
+    ("getter-return", "S", "class Foo { get bar() {} }", "class Foo { get bar() { return 1; } }"),
     ("require-yield", "E", "function* () { foo(); }", "function* () { yield 1; }"),
-    ("for-direction", "S", "for (let i = 0; i < 10; i--) {}", "for (let i = 0; i < 10; i++) {}"),
+    ("for-direction", "S", "for(let i = 0; i < 2; i--) {}", "for(let i = 0; i < 2; i++) {}"),
     ("guard-for-in", "S", "for (const key in obj) { foo(key); }", "for (const key in obj) { if (Object.hasOwn(obj, key)) { foo(key); } }"),
     ("no-inferrable-types", "S", "const a2: number = 5;", "const a2 = 5;"),
     ("no-inferrable-types", "E", "(a2: number = 5) => {}", "(a2 = 5) => {}"),
-    ("single-var-declarator", "S", "let a3 = 1, b3 = 2;", "let a3 = 1;"),
-    ("default-param-last", "E", "function (a = 0, b) {}", "function (b, a = 0) {}"),
-    ("no-useless-rename", "S", "const { foo2: foo2 } = obj;", "const { foo2: bar2 } = obj;"),
+    ("single-var-declarator", "S", 'let a2 = "a", b2 = "b", c2 = "c";', 'let a2 = "a";'),
+    ("default-param-last", "S", "function f(a = 2, b) {}", "function f(a, b = 5) {}"),
+    ("no-useless-rename", "S", "const { foo: foo } = obj;", "const { foo: bar } = obj;"),
     ("no-octal", "E", "07", "7", "js"),
     ("no-misused-new", "S", "interface I1 { constructor(): void; }", "interface I1 { construct(): void; }"),
-    ("no-empty-enum", "S", "enum Foo1 {}", "enum Foo1 { ONE }"),
-    ("no-empty-interface", "S", "interface Foo2 {}", "interface Foo2 { a: string }"),
+    ("no-empty-enum", "S", "enum Foo {}", "enum Foo { ONE = 'ONE', TWO = 'TWO' }"),
+    ("no-empty-interface", "S", "interface Foo {}", "interface Foo { a: string }"),
     ("prefer-as-const", "E", '"bar" as "bar"', '"bar" as const'),
-    ("no-unused-labels", "S", "LABEL1: for (;;) { break; }", "LABEL1: for (;;) { break LABEL1; }"),
-    ("no-boolean-literal-for-arguments", "E", "foo(true)", "foo(bar)"),
-    ("constructor-super", "E", "class extends B1 { constructor() { } }", "class extends B1 { constructor() { super(); } }"),
+    ("no-unused-labels", "S", "LABEL: for (let i = 0; i < 5; i++) { a(); b(); }", "LABEL: for (let i = 0; i < 5; i++) { a(); break LABEL; }"),
+    ("no-boolean-literal-for-arguments", "E", "test(true,true)", "runCMDCommand(command, executionMode)"),
+    ("constructor-super", "S", "class A extends B { constructor() { } }", "class A extends B { constructor() { super(); } }"),
     ("no-this-before-super", "E", "class extends B1 { constructor() { this.a = 0; super(); } }", "class extends B1 { constructor() { super(); this.a = 0; } }"),
     ("no-class-assign", "S", "{ class A4 {} A4 = 0; }", "{ class A4 {} B4 = 0; }"),
-    ("no-const-assign", "S", "{ const c4 = 0; c4 = 1; }", "{ const c4 = 0; d4 = 1; }"),
-    ("no-ex-assign", "S", "try {} catch (e5) { e5 = 10; }", "try {} catch (e5) { f5 = 10; }"),
-    ("no-func-assign", "S", "{ function foo6() {} foo6 = bar; }", "{ function foo6() {} bar6 = bar; }"),
+    ("no-const-assign", "S", "{ const x = 0; x = 1; }", "{ const x = 0; y = 1; }"),
+    ("no-ex-assign", "S", "try {} catch (e) { e = 1; }", "try {} catch (e) { f = 1; }"),
+    ("no-func-assign", "S", "function foo() { foo = bar; }", "function foo() { var foo = bar; }"),
     ("no-shadow-restricted-names", "E", "function (NaN) {}", "function (nan) {}"),
-    ("ban-types", "S", "let a7: String;", "let a7: string;"),
+    ("ban-types", "S", "let a: String;", "let a: string;"),
     ("no-redeclare", "E", "function () { var r8 = 1; var r8 = 2; }", "function () { var r8 = 1; var s8 = 2; }"),
-    ("no-fallthrough", "S", "switch (foo) { case 0: a(); case 1: b(); }", "switch (foo) { case 0: a(); break; case 1: b(); }"),
-    ("no-global-assign", "E", "Object = null", "Objekt = null"),
-    ("no-import-assertions", "S", 'import("./foo.json", { assert: { type: "json" } });', 'import("./foo.json", { with: { type: "json" } });'),
+    ("no-fallthrough", "S", "switch(foo) { case 0: a(); default: b() }", "switch(foo) { case 0: a(); break; case 1: b(); }"),
+    ("no-global-assign", "S", "Array = 1;", "Arrayy = 1;"),
+    ("no-import-assertions", "S", "import('./foo.js', { assert: { bar: 'bar' } });", "import('./foo.js', { with: { bar: 'bar' } });"),
     ("jsx-boolean-value", "E", "<Foo foo={true} />", "<Foo foo />", "tsx"),
     ("jsx-no-duplicate-props", "E", "<div a a />", "<div a b />", "tsx"),
-    ("jsx-no-children-prop", "E", "<div children={1} />", "<div kids={1} />", "tsx"),
+    ("jsx-no-children-prop", "E", '<div children="foo" />', '<div kids="foo" />', "tsx"),
     ("jsx-void-dom-elements-no-children", "E", "<br>foo</br>", "<br />", "tsx"),
-    ("react-no-danger", "E", '<div dangerouslySetInnerHTML={{ __html: "foo" }} />', '<div html={{ __html: "foo" }} />', "tsx"),
+    ("react-no-danger", "E", "<div dangerouslySetInnerHTML={{}} />", "<div html={{}} />", "tsx"),
     ("jsx-no-useless-fragment", "E", "<><div /></>", "<><div /><div /></>", "tsx"),
     ("jsx-props-no-spread-multi", "E", "<div {...foo} {...foo} />", "<div {...foo} {...bar} />", "tsx"),
     ("jsx-button-has-type", "E", "<button />", '<button type="button" />', "tsx"),
-    ("jsx-key", "E", "[<div />, <div />]", '[<div key="1" />, <div key="2" />]', "tsx"),
+    ("jsx-key", "E", '[<div key="foo" />, <div />]', '[<div key="1"/>, <div key="2" />]', "tsx"),
 ]
 
 # --------------------------------------------------------------------------------------------------------------
@@ -206,7 +208,9 @@ CONTEXTS = [
     ("generator-function-body", "S", "E", "(function* () { yield 1; ", " })", ["visit_paren_expr", "visit_fn_expr", "visit_function", "visit_block_stmt"], ""),
     ("iife-body", "S", "E", "(function () { ", " })()", ["visit_call_expr", "visit_callee", "visit_paren_expr", "visit_fn_expr", "visit_function", "visit_block_stmt"], ""),
     ("object-method-body", "S", "E", "({ m() { ", " } })", ["visit_paren_expr", "visit_object_lit", "visit_prop", "visit_method_prop", "visit_function", "visit_block_stmt"], ""),
+    ("object-method-body-returning", "S", "E", "({ m() { ", " return 1; } })", ["visit_paren_expr", "visit_object_lit", "visit_prop", "visit_method_prop", "visit_function", "visit_block_stmt"], ""),
     ("object-getter-body", "S", "E", "({ get g() { ", " return 1; } })", ["visit_paren_expr", "visit_object_lit", "visit_prop", "visit_getter_prop", "visit_block_stmt"], ""),
+    ("getter-body-after-return", "S", "E", "({ get g() { if (c) { return 0; } ", " return 1; } })", ["visit_paren_expr", "visit_object_lit", "visit_prop", "visit_getter_prop", "visit_block_stmt"], ""),
     ("object-setter-body", "S", "E", "({ set s(v) { ", " } })", ["visit_paren_expr", "visit_object_lit", "visit_prop", "visit_setter_prop", "visit_block_stmt"], ""),
     ("class-expression-method-body", "S", "E", "(class { m() { ", " } })", ["visit_paren_expr", "visit_class_expr", "visit_class", "visit_class_member", "visit_class_method", "visit_function", "visit_block_stmt"], ""),
     ("class-expression-private-method-body", "S", "E", "(class { #m() { ", " } })", ["visit_paren_expr", "visit_class_expr", "visit_class", "visit_class_member", "visit_private_method", "visit_function", "visit_block_stmt"], ""),
@@ -220,6 +224,30 @@ CTX = {c[0]: c for c in CONTEXTS}
 BY_DESIGN_HIDDEN = {
     ("no-var", "namespace-body"): "no_var.rs: a `var` whose parent is a TsModuleBlock is accepted on purpose (declare global / namespace augmentation)",
 }
+
+# A context that reports for the rule ON ITS OWN TEXT (filled with the silent twin, or with the atom `z0` / `;`) is not
+# neutral for that rule; by the model it is excluded for that rule.  So that a rule which starts to "create" reports
+# is not silently excluded, every such (rule, context) must be listed here with the reason why it is the rule's
+# specification; anything else is a failure of class C08.created:<rule>:<context>.
+EXPECTED_NON_NEUTRAL = {
+    ("no-extra-boolean-cast", "conditional-test"): "`!!x` is redundant exactly in boolean contexts: the test of ?:, if, while, do-while (rule specification; the twin `!!foo` probes it)",
+    ("no-extra-boolean-cast", "if-test"): "boolean context (specification)",
+    ("no-extra-boolean-cast", "while-test"): "boolean context (specification)",
+    ("no-extra-boolean-cast", "do-while-test"): "boolean context (specification)",
+    ("no-var", "var-initialiser"): "the context is itself a `var` declaration",
+    ("no-constant-condition", "conditional-test"): "a conditional whose branches are both constant, or a function/class/object literal, is a constant condition in a test position (specification)",
+    ("no-constant-condition", "if-test"): "same: constant expression in the test of an if",
+}
+# Interactions of two contexts (outer, inner; None = any): the outer context reacts to the inner context's own text.
+EXPECTED_INTERACTIONS = [
+    ("no-constant-condition", "if-test", None, "a function / class / object / array / template literal in a test position is constant (specification)"),
+    ("no-constant-condition", "conditional-test", None, "same"),
+    ("no-case-declarations", "switch-default-unbraced", None, "the inner context is a lexical declaration (const/class/function) placed directly in a case clause"),
+    ("jsx-key", "array-element", None, "the inner context is a JSX element without key inside an array literal"),
+    ("jsx-key", "array-spread", None, "same"),
+    ("no-cond-assign", None, "assignment-right", "the inner context is an assignment, placed in a test position"),
+    ("no-unused-labels", None, None, "label contexts"),
+]
 
 # Classes of failures that exist on the pinned tree and were proposed to the main engineer as `fix:` patches
 # (work/c08-fix-<rule>.diff).  Until they are merged into known_findings.json / applied, `c08()` registers them
@@ -243,6 +271,17 @@ PROPOSED_KNOWN = {
     "C08.hidden:no-const-assign:scope-analysis.visit_param": "deno_ast scope analysis (scopes.rs visit_param) does not descend into parameter defaults of `function`s: no-const-assign misses `function (p = () => { const c = 0; c = 1; }) {}`",
     "C08.hidden:no-ex-assign:scope-analysis.visit_param": "deno_ast scope analysis (scopes.rs visit_param) does not descend into parameter defaults of `function`s: no-ex-assign misses a catch parameter assignment there",
     "C08.hidden:no-func-assign:scope-analysis.visit_param": "deno_ast scope analysis (scopes.rs visit_param) does not descend into parameter defaults of `function`s: no-func-assign misses `function (p = () => { function f() {} f = 0; }) {}`",
+    "C08.moved:getter-return:under-getter-body-after-return": "getter-return: visit_getter_or_function saves has_return but does not reset it, so a getter nested in a getter after an earlier `return` is reported with the other message (\"Expected 'a' to always return a value\" instead of \"Expected to return a value in 'a'\")",
+    # rules that look UP the parent chain for an enclosing construct and forget function-like boundaries: the context's own
+    # `return <value>` inside an object getter / method nested in a setter / finally block is reported
+    "C08.created:no-setter-return:object-setter-body/object-getter-body": "no-setter-return: inside_setter stops only at FnDecl/FnExpr/ArrowExpr; `return 1` of a getter (GetterProp) nested in a setter is reported as a setter return: ({ set s(v) { ({ get g() { return 1; } }); } })",
+    "C08.created:no-setter-return:object-setter-body/getter-return-argument": "no-setter-return: same (getter nested in a setter)",
+    "C08.created:no-setter-return:object-setter-body/getter-body-after-return": "no-setter-return: same (getter nested in a setter)",
+    "C08.created:no-setter-return:object-setter-body/object-method-body-returning": "no-setter-return: same for an object method (MethodProp/Function are not boundaries): ({ set s(v) { ({ m() { return 1; } }); } })",
+    "C08.created:no-unsafe-finally:finally-block/object-getter-body": "no-unsafe-finally: stmt_inside_finally stops only at Function/ArrowExpr; `return` of an object getter (GetterProp has no Function node) nested in a finally block is reported: try {} finally { ({ get g() { return 1; } }); }",
+    "C08.created:no-unsafe-finally:finally-block/getter-return-argument": "no-unsafe-finally: same (object getter nested in a finally block)",
+    "C08.created:no-unsafe-finally:finally-block/getter-body-after-return": "no-unsafe-finally: same (object getter nested in a finally block)",
+    "C08.created:no-fallthrough:switch-case-test": "no-fallthrough: a switch inside a function in the TEST of a case has no control-flow metadata (the analysis does not visit case tests), so its `break`s are not seen and a fallthrough is reported: switch (w) { case (() => { switch(foo) { case 0: a(); break; case 1: b(); } }): g(); }",
     # the control-flow analysis (src/control_flow/mod.rs visit_switch_case) never visits the TEST of a switch case, so a getter
     # there has no metadata and getter-return unwraps None
     "C08.panic:getter-return:src/rules/getter_return.rs:133": "getter-return panics (unwrap of missing control-flow metadata) for a getter inside the test expression of a switch case: `switch (w) { case ({ get a() {} }): }` -- the control-flow analysis does not visit case tests",
@@ -392,13 +431,67 @@ def run_lint(cases):
     return lib.run_vh("lint", cases)
 
 
+ATOM = {"E": "z0", "S": ";"}
+CTX["@expression-statement"] = ("@expression-statement", "E", "S", "", ";", ["visit_stmt", "visit_expr_stmt"], "")
+
+
+def interaction_expected(rule, a, b):
+    return any(r == rule and (x is None or x == a) and (y is None or y == b) for r, x, y, _ in EXPECTED_INTERACTIONS)
+
+
+def _group_interactions(inter):
+    g = collections.defaultdict(list)
+    for rule, a, b in sorted(inter):
+        g["%s: %s[...]" % (rule, a)].append(b)
+    return {k: (v if len(v) <= 6 else "%d inner contexts, e.g. %s" % (len(v), ", ".join(v[:4]))) for k, v in g.items()}
+
+
+def interaction_sweep(rules):
+    """Context-only programs: every context alone and every ordered pair outer[inner] (bridged by an expression statement or
+    an arrow body where the hole types differ), filled with a neutral atom, linted with all context-free rules at once.
+    -> own: ctx -> rules reporting on the context alone;  inter: (rule, outer, inner) -> program, for reports that neither
+    context produces alone."""
+    kinds = [c[0] for c in CONTEXTS]
+
+    def prog(chain):
+        if any("top" in CTX[k][6].split() for k in chain[1:]):
+            return None
+        src, _, _ = assemble(chain, ATOM[CTX[chain[-1]][1]])
+        return {"src": src, "media": "tsx", "rules": rules}
+    res = run_lint([prog([k]) for k in kinds])
+    own, unparsable = collections.defaultdict(set), 0
+    for k, r in zip(kinds, res):
+        for d in (r or {}).get("ok", []):
+            own[k].add(d["code"])
+    cases, meta = [], []
+    for a in kinds:
+        for b in kinds:
+            A, B = CTX[a], CTX[b]
+            chain = [a, b] if A[1] == B[2] else ([a, "@expression-statement", b] if A[1] == "S" else [a, "arrow-block-body", b])
+            c = prog(chain)
+            if c:
+                cases.append(c)
+                meta.append((a, b, chain))
+    res = run_lint(cases)
+    inter = {}
+    for (a, b, chain), c, r in zip(meta, cases, res):
+        if "ok" not in (r or {}):
+            unparsable += 1
+            continue
+        for code in sorted({d["code"] for d in r["ok"]}):
+            if code in own[a] or code in own[b] or ("arrow-block-body" in chain[1:-1] and code in own["arrow-block-body"]):
+                continue
+            inter[(code, a, b)] = c["src"]
+    return own, inter, len(cases) + len(kinds), unparsable
+
+
 def explore(ctx, table, tier, seed):
     rng = random.Random(seed + 8)
     nonrec = non_recursing_by_rule(table)
     test_strings = collections.defaultdict(str)
     for sn in corpus_mod.corpus(lib.REPO):
         test_strings[sn["rule_file"]] += "\n" + sn["src"]
-    from_tests = sum(1 for p in PAIRS if p[2] in test_strings.get(p[0].replace("-", "_"), ""))
+    from_tests = sum(1 for p in PAIRS if any(v in test_strings.get(p[0].replace("-", "_"), "") for v in (p[2], p[2].rstrip(";"), "(" + p[2] + ")")))
     # ---- baselines
     base_cases = []
     for p in PAIRS:
@@ -438,7 +531,7 @@ def explore(ctx, table, tier, seed):
     stats = collections.Counter()
     excl = {"non_neutral": collections.defaultdict(list), "unparsable": collections.defaultdict(list), "by_design": collections.defaultdict(list)}
 
-    def judge(i, chain, cc, cr, tc, tr, off, single_status):
+    def judge(i, chain, cc, cr, tc, tr, off, single_status, hint=None):
         p = PAIRS[i]
         rule = p[0]
         dt, dc = rule_diags(tr, rule), rule_diags(cr, rule)
@@ -453,6 +546,13 @@ def explore(ctx, table, tier, seed):
                              {"program": prog["src"], "media": prog["media"], "rules": prog["rules"], "rule": rule, "contexts_outermost_first": chain, "result": bad}))
             return "panic"
         if dt:
+            if len(chain) == 1 or hint is not None:
+                k = hint or chain[0]
+                if (rule, k) not in EXPECTED_NON_NEUTRAL:
+                    findings.append(("C08.created:%s:%s" % (rule, k), "created: %s -> %s" % (tc["src"], [(c, s, e) for c, s, e, _, _ in dt]),
+                                     {"program": tc["src"], "media": tc["media"], "rules": tc["rules"], "rule": rule, "contexts_outermost_first": chain, "got": dt,
+                                      "note": "the silent twin is reported when embedded; the (rule, context) pair is not listed in EXPECTED_NON_NEUTRAL"}))
+                    return "created"
             return "non-neutral"
         verdict = compare(shifted(base[i], off), dc)
         if verdict is None:
@@ -462,7 +562,9 @@ def explore(ctx, table, tier, seed):
         if verdict == "hidden":
             what, culprit = attribute(rule, chain, single_status, nonrec)
         else:
-            what, culprit = "under-" + chain[-1], chain[-1]
+            # the first context of the chain that shows the same deviation on its own, else the innermost one
+            culprit = hint or next((k for k in chain if single_status.get(k) == verdict), chain[-1])
+            what = "under-" + culprit
         cls = "C08.%s:%s:%s" % (verdict, rule, what)
         findings.append((cls, "%s: %s | expected %s got %s" % (verdict, cc["src"], [(c, s, e) for c, s, e, _, _ in shifted(base[i], off)], [(c, s, e) for c, s, e, _, _ in dc]),
                          {"program": cc["src"], "media": cc["media"], "rules": cc["rules"], "rule": rule, "construct": p[2], "construct_alone": filler_for(p[1], p[2], "S"),
@@ -474,10 +576,10 @@ def explore(ctx, table, tier, seed):
         for (i, k), d in tmp.items():
             cc, cr, off = d["construct"]
             tc, tr, _ = d["twin"]
-            st = judge(i, d["chain"], cc, cr, tc, tr, off, {k: "hidden"})
+            st = judge(i, d["chain"], cc, cr, tc, tr, off, {k: "hidden"}, hint=k)
             single[i][k] = st
             stats["depth1:" + st] += 1
-            for key, name in (("non-neutral", "non_neutral"), ("unparsable", "unparsable"), ("by-design", "by_design")):
+            for key, name in (("non-neutral", "non_neutral"), ("created", "non_neutral"), ("unparsable", "unparsable"), ("by-design", "by_design")):
                 if st == key:
                     excl[name][PAIRS[i][0]].append(k)
     judge_singles(tmp)
@@ -497,6 +599,18 @@ def explore(ctx, table, tier, seed):
     for (i, k, which, off, chain), c, r in zip(meta, cases, res):
         tmp.setdefault((i, k), {"chain": chain})[which] = (c, r, off)
     judge_singles(tmp)
+    # ---- context-only interaction sweep (deterministic): which outer context reacts to which inner context, for which rule
+    own, inter, n_sweep, n_sweep_unparsable = interaction_sweep(sorted({p[0] for p in PAIRS}))
+    for k, rs in sorted(own.items()):
+        for rule in sorted(rs):
+            if (rule, k) not in EXPECTED_NON_NEUTRAL:
+                src = assemble([k], ATOM[CTX[k][1]])[0]
+                findings.append(("C08.created:%s:%s" % (rule, k), "created: the context alone reports: %s" % src,
+                                 {"program": src, "media": "tsx", "rules": [rule], "rule": rule, "contexts_outermost_first": [k]}))
+    for (rule, a, b), src in sorted(inter.items()):
+        if not interaction_expected(rule, a, b):
+            findings.append(("C08.created:%s:%s/%s" % (rule, a, b), "created: neither context reports alone, their composition does: %s" % src,
+                             {"program": src, "media": "tsx", "rules": [rule], "rule": rule, "contexts_outermost_first": [a, b]}))
     # ---- depth 2..4: chains over the contexts that are individually neutral (and parse) for the pair
     n_random = 2000 if tier == "quick" else 12000
     cases, meta = [], []
@@ -534,17 +648,159 @@ def explore(ctx, table, tier, seed):
                 cases.append({"src": src, "media": media_for(p, jsx), "rules": [p[0]]})
                 meta.append((i, ch, which, off))
     res = run_lint(cases)
-    composed_non_neutral = []
+    composed_non_neutral, unexplained_created = [], []
     k = 0
     while k < len(cases):
         (i, ch, _, off) = meta[k]
         st = judge(i, list(ch), cases[k], res[k], cases[k + 1], res[k + 1], off, single[i])
         stats["deep:" + st] += 1
-        if st == "non-neutral" and len(composed_non_neutral) < 2000:
-            composed_non_neutral.append((PAIRS[i][0], ch, cases[k + 1]["src"]))
+        if st == "non-neutral":
+            rule = PAIRS[i][0]
+            explained = any((rule, ch[x], ch[y]) in inter for x in range(len(ch)) for y in range(x + 1, len(ch))) or any(rule in own.get(c, ()) for c in ch)
+            stats["deep:non-neutral:" + ("explained-by-pairwise-interaction" if explained else "unexplained")] += 1
+            if not explained:
+                unexplained_created.append((i, ch, cases[k + 1], res[k + 1]))
+            if len(composed_non_neutral) < 2000:
+                composed_non_neutral.append((rule, ch, cases[k + 1]["src"]))
         elif st == "by-design":
             excl["by_design"][PAIRS[i][0]].append("/".join(ch))
         k += 2
+    # a composed context that reports on the twin although no pair of its contexts interacts: shrink the chain greedily
+    for i, ch, tc, tr in unexplained_created[:60]:
+        p = PAIRS[i]
+        cur = list(ch)
+        progress = True
+        while progress and len(cur) > 1:
+            progress = False
+            for x in range(len(cur)):
+                cand = cur[:x] + cur[x + 1:]
+                if not cand or not chain_well_typed(cand, p[1]):
+                    continue
+                src, _, jsx = assemble(cand, filler_for(p[1], p[3], CTX[cand[-1]][1]))
+                rr = run_lint([{"src": src, "media": media_for(p, jsx), "rules": [p[0]]}])[0]
+                if rule_diags(rr, p[0]):
+                    cur, progress = cand, True
+                    break
+        if len(cur) == 1 and (p[0], cur[0]) in EXPECTED_NON_NEUTRAL:
+            continue
+        src, _, jsx = assemble(cur, filler_for(p[1], p[3], CTX[cur[-1]][1]))
+        findings.append(("C08.created:%s:%s" % (p[0], "/".join([cur[0], cur[-1]] if len(cur) > 1 else cur)), "created: twin reported under %s: %s" % (cur, src),
+                         {"program": src, "media": media_for(p, jsx), "rules": [p[0]], "rule": p[0], "contexts_outermost_first": cur, "original_chain": list(ch)}))
     all_programs = [c for c in cases[::2]]
-    return dict(base=base, bad_pairs=bad_pairs, single=single, findings=findings, stats=stats, excl=excl, dist=dist,
+    stats["sweep:context-only programs"] = n_sweep
+    stats["sweep:unparsable"] = n_sweep_unparsable
+    return dict(own={k: sorted(v) for k, v in own.items()}, interactions=_group_interactions(inter), base=base, bad_pairs=bad_pairs, single=single, findings=findings, stats=stats, excl=excl, dist=dist,
                 composed_non_neutral=composed_non_neutral, from_tests=from_tests, programs=all_programs, nonrec=nonrec)
+
+
+def coq_context_free_rules():
+    """the rule codes of `context_free_rules` in coq/Traverse/TableFacts.v"""
+    src = lib.strip_comments(open(os.path.join(lib.COQ, "Traverse", "TableFacts.v")).read())
+    m = re.search(r"Definition\s+context_free_rules\s*:\s*list str\s*:=\s*codes\s*\[(.*?)\]\s*\.", src, flags=re.S)
+    return sorted(re.findall(r'"([^"]+)"', m.group(1))) if m else None
+
+
+def coq_known_non_recursing():
+    src = lib.strip_comments(open(os.path.join(lib.COQ, "Traverse", "TableFacts.v")).read())
+    m = re.search(r"Definition\s+known_non_recursing\b.*?\[(.*?)\]\s*\.", src, flags=re.S)
+    return sorted(set(re.findall(r'\("([^"]+)",\s*"([^"]+)"\)', m.group(1)))) if m else []
+
+
+@register("C08")
+def c08(ctx):
+    ctx.assumptions += [
+        "C08 is PARTIAL: 'the verdict of the rule depends only on the local piece of syntax' (equivariant / neutral in Traverse/VisitTraverse.v) is an assumption about each rule listed in context_free_rules; what is proved is the traversal mechanism (swc Visit with overrides; the generic Handler driver with the stop flag) and, per run, the generated-table obligations that instantiate its hypotheses",
+        "swc's generated default `visit_*` methods visit every child in order, `node.children()` of deno_ast::view yields every child, and `noop_visit_type!()` only disables pure type syntax (modelled, not verified; no hole of the nesting differential is inside a type)",
+        "the translator translate/gen_visit_table.py is a token-level scanner: unconditional `<param>.visit_children_with(self)` at the top level of the body with no earlier return/? => recurses; no visit call at all => does not; everything else is unknown and fails the obligation unless it is in the commented, body-hash-pinned allow-list of the translator (entries justified by reading the code)",
+        "the order in which one rule pushes its diagnostics (pre- vs post-order) is not modelled: the pipeline sorts by position afterwards (C02/C03)",
+        "HandlerTraverse: the number and order of handler calls is not observable through the public API; validated are the model's observable consequences (no `assert!(!stop_traverse)` panic on any generated program with all rules on one shared Context; Handler based rules report nested constructs exactly once at shifted positions) and, textually on every run, the shape of Traverse::traverse / TraverseFlow and the absence of stop_traverse in any on_exit_node",
+    ]
+    _with_proposed_known()
+    # ---------------------------------------------------------------- (a) translator
+    try:
+        table = gen_visit_table.generate()
+        ctx.obligation("translator: coq/Gen/VisitTable.v regenerated from src/rules/*.rs (+ control_flow/mod.rs, deno_ast scopes.rs, handler.rs, context.rs): "
+                       "%d overridden visit methods in %d visitors, %d Handler impls" % (
+                           len(table["visit_table"]), len({(r["rule"], r["visitor"]) for r in table["visit_table"]}), len(table["handler_table"])),
+                       len(table["visit_table"]) > 50 and len(table["handler_table"]) > 50 and len(table["analyses_found"]) == 2,
+                       "suspiciously small table or a dependency analysis source not found: %s" % table["analyses_found"])
+    except Exception as e:   # noqa
+        ctx.obligation("translator: coq/Gen/VisitTable.v regenerated from src/rules/*.rs", False, repr(e))
+        return
+    claimed = coq_context_free_rules()
+    tested = sorted({p[0] for p in PAIRS})
+    ctx.obligation("context_free_rules of Traverse/TableFacts.v == rules exercised by the nesting differential (%d rules, %d constructs)" % (len(tested), len(PAIRS)),
+                   claimed == tested, "only in Coq: %s; only in the differential: %s" % (sorted(set(claimed or []) - set(tested)), sorted(set(tested) - set(claimed or []))))
+    # ---------------------------------------------------------------- (b) proofs
+    ctx.proof_stage("C08", ["Traverse/VisitTraverse.vo", "Traverse/HandlerTraverse.vo", "Traverse/TableFacts.vo"])
+    cf = set(tested)
+    unknown_cf = [(r["rule"], r["visitor"], r["method"], r["reason"]) for r in table["visit_table"] if r["rule"] in cf and r["cls"] == "unknown"]
+    nonrec_cf = sorted({(r["rule"], r["method"]) for r in table["visit_table"] if r["rule"] in cf and r["cls"] == "none"})
+    known_nr = coq_known_non_recursing()
+    stale = [k for k in known_nr if k not in nonrec_cf]
+    if stale:
+        ctx.notes.append("known_non_recursing entries of Traverse/TableFacts.v that no longer occur in the generated table (repaired? remove them and the matching PROPOSED_KNOWN / known_findings classes): %s" % stale)
+    # ---------------------------------------------------------------- (c) nesting differential
+    r = explore(ctx, table, ctx.tier, ctx.seed)
+    for bp in r["bad_pairs"]:
+        ctx.obligation("baseline: construct of %s reports and its twin is silent" % bp["pair"][0], False, json.dumps(bp)[:1500])
+    stats = r["stats"]
+    n_eval = sum(v for k, v in stats.items())
+    n_ok = stats["depth1:ok"] + stats["deep:ok"] + stats["sweep:context-only programs"] - stats["sweep:unparsable"]
+    by_cls = collections.OrderedDict()
+    for cls, text, replay in r["findings"]:
+        by_cls.setdefault(cls, []).append((text, replay))
+    for cls, items in by_cls.items():
+        # the smallest program of the class as the replay
+        text, replay = min(items, key=lambda x: len(x[1]["program"]))
+        ctx.violation(cls, "%s  (%d programs of this class)" % (text, len(items)), replay)
+    # a hidden report in a rule whose visitor the table calls complete, or no failure for a known non-recursing override,
+    # is a disagreement between the generated table and the implementation
+    observed = {tuple(c.split(":")[1:3]) for c in by_cls if c.startswith("C08.hidden:")}
+    unexplained = sorted(c for c in by_cls if c.startswith("C08.hidden:") and ":under-" in c)
+    unobserved = [k for k in nonrec_cf if k not in observed and k != ("no-empty-pattern", "visit_object_pat_prop")]
+    ctx.correspondence("generated visit table vs implementation: hidden reports <-> non-recursing overrides", len(nonrec_cf) + len(by_cls), len(observed),
+                       [{"unexplained_hidden_class": c, "example": by_cls[c][0][0]} for c in unexplained],
+                       "every `hidden` failure is attributed to a non-recursing override (of the rule or of an analysis it consults) that lies on the spine of a context "
+                       "which hides the construct on its own; unattributable ones are mismatches.  Non-recursing overrides never observed to hide anything: %s" % unobserved)
+    if unobserved:
+        ctx.notes.append("non-recursing overrides of context-free rules for which the differential has no hiding context yet: %s" % unobserved)
+    ctx.correspondence("nesting differential: context[construct] == shift(construct alone), context[twin] silent", n_eval, n_ok, [],
+                       "%d (rule, construct, twin) triples of %d rules (%d constructs literally from the repo's tests) x %d one-hole contexts, all at depth 1 + "
+                       "random well-typed chains of depth 2-4 over the contexts that are individually neutral for the pair%s; exact comparison of "
+                       "(code, start, end, message, hint) after shifting by the byte offset of the hole; non-trivial := prediction confirmed on a program that embeds a reporting construct" % (
+                           len(PAIRS), len(tested), r["from_tests"], len(CONTEXTS), " + all depth-2 chains + depth<=4 exhaustive over override-related contexts" if ctx.tier == "thorough" else ""),
+                       samples=[{"program": f[2]["program"], "class": f[0]} for f in r["findings"][:2]],
+                       distribution=dict(r["dist"], **{k: v for k, v in stats.items()}))
+    ctx.extra["c08"] = {
+        "outcomes": dict(stats),
+        "excluded_non_neutral_depth1": {k: sorted(set(v)) for k, v in r["excl"]["non_neutral"].items()},
+        "excluded_unparsable_depth1": {k: sorted(set(v)) for k, v in r["excl"]["unparsable"].items()},
+        "excluded_by_design": {k: sorted(set(v))[:20] for k, v in r["excl"]["by_design"].items()},
+        "by_design_rules": {"%s under %s" % k: v for k, v in BY_DESIGN_HIDDEN.items()},
+        "excluded_non_neutral_composed": {"count": stats["deep:non-neutral"], "by_rule": dict(collections.Counter(x[0] for x in r["composed_non_neutral"])),
+                                          "examples": [{"rule": a, "contexts": list(b), "twin_program": c} for a, b, c in r["composed_non_neutral"][:12]]},
+        "failure_classes": {c: len(v) for c, v in by_cls.items()},
+        "context_interactions_found": r["interactions"],
+        "contexts_reporting_alone": r["own"],
+        "expected_non_neutral": {"%s under %s" % k: v for k, v in EXPECTED_NON_NEUTRAL.items()},
+        "expected_interactions": [list(x) for x in EXPECTED_INTERACTIONS],
+        "non_recursing_overrides_of_context_free_rules": nonrec_cf,
+        "unknown_overrides_of_context_free_rules": unknown_cf,
+        "stoppers": [(h["rule"], h["handler"], h["stops"]) for h in table["handler_table"] if h["stops"]],
+        "proposed_known": PROPOSED_KNOWN,
+    }
+    # ---------------------------------------------------------------- HandlerTraverse: observable consequences
+    rng = random.Random(ctx.seed + 88)
+    progs = r["programs"]
+    sample = rng.sample(progs, min(len(progs), 4000 if ctx.tier == "quick" else 40000))
+    flag_cases = [{"src": c["src"], "media": c["media"], "rules": "all"} for c in sample]
+    flag_cases += [{"src": c["src"], "media": c["media"], "rules": ["camelcase", "require-await", "no-this-before-super"]} for c in sample[:2000]]
+    fres = run_lint(flag_cases)
+    asserts = [(c, x) for c, x in zip(flag_cases, fres) if "panic" in (x or {}) and ("stop_traverse" in str(x.get("panic")) or "context.rs" in str(x.get("at")))]
+    other_panics = collections.Counter(str(x.get("at")) for x in fres if "panic" in (x or {}))
+    for c, x in asserts[:3]:
+        ctx.violation("C08.traverse-flag-assert", "assert_traverse_init fired: %s" % c["src"][:200], {"case": c, "result": x})
+    ctx.correspondence("HandlerTraverse flag invariant: no TraverseFlow assertion on nested programs (all rules on one Context; the stopping / re-entering rules alone)",
+                       len(flag_cases), sum(1 for x in fres if "ok" in (x or {})), [],
+                       "observable consequence of traverse_flag_invariant + handlers_respect_flag_protocol; the call sequence itself is not observable. Other panics seen (C01's business): %s" % dict(other_panics))
